@@ -219,6 +219,10 @@ pub fn property() -> Property {
                 prop_oneof![
                     3 => (0..3200usize, any::<bool>()).prop_map(|(i, v)| format!("{}{}", if v { "v" } else { "" }, universe()[i])),
                     1 => big_version(),
+                    // tags of one release line: two cores, every pre-release list, build metadata on some
+                    4 => (0..2usize, 0..400usize, gens::pick(&BUILDS), gens::pick(&BUILDS), any::<bool>(), any::<bool>()).prop_map(|(c, p, b1, b2, v, which)| {
+                        format!("{}{}{}{}", if v { "v" } else { "" }, ["1.4.0", "1.4.1"][c], pre_lists()[p], if which { b1 } else { b2 })
+                    }),
                 ],
                 1..8,
             )
